@@ -32,4 +32,14 @@ PROPS["C10"] = {
     "assumptions": ["TransactionByHash's (tx, isPending, err) triple is the only source of the target's state"],
 }
 
+PROPS["C08"] = {
+    "harness": {"kind": "overlay", "pkg": "pkg/evmclient", "pkgname": "evmclient",
+                "files": ["evmclient/stub_test.go", "evmclient/c08_test.go"], "test": "TestVerifC08"},
+    "level_text": "Theorem by induction over arbitrary operation lists (sends with any pending answer or failure and any failing call, monitor updates, restarts): every successfully submitted nonce n satisfies max(prev+1, own pending answer) <= n <= max(prev+1, largest pending answer since the previous success) and n <= highest confirmed nonce reported + 1024 (literal; the window constant is regenerated from the source). Corollaries proved on event lists: strictly increasing within a lifetime, consecutive when nothing failed/intervened, a failed request consumes no nonce, restart monotonicity under the (necessary, witnessed) fresh-answer hypothesis. The model is tied to the real EvmClient.Send + real watch loop over a scripted chain node with in-package access.",
+    "level_note": "Trusted: Lean kernel; differential harness; atomicity of Send (whole body under c.mtx) and of the monitor's atomic word are modelling assumptions, exercised under -race in the thorough tier. Restart: the client persists nothing, so cross-restart monotonicity is proved under the stated environment hypothesis.",
+    "nontrivial_rule": "distinct (tag, model event list) pairs; a sequence is non-trivial when it contains at least one send",
+    "assumptions": ["Send is serialised by the client's mutex (one atomic step per request)",
+                    "after a restart the chain node's first pending answer exceeds every nonce it accepted from this account (needed only for the cross-restart corollary)"],
+}
+
 NOT_CLAIMED = {}
